@@ -117,6 +117,45 @@ Definition spec_special (srckind op kind ok srcp srco dsto third : N) : bool :=
       {| o_ok := nz ok; o_src_present := nz srcp; o_src_orig := nz srco; o_dst_orig := nz dsto; o_third_ok := nz third |}
   else nz third && (if nz ok then nz dsto else true).
 
+(** Directory-like destination SPELLINGS ("D" lines of the harness): the destination text ends in a path separator
+    ("dir/", "dir//"), or in "/." , and names an existing directory — the source's own parent, another directory,
+    either of them through a symbolic link to the directory — or a missing directory ("nodir/").
+    Model/FileOps.v resolves paths to slots and has no notion of a spelling: for the code at HEAD such a destination
+    IS the existing failure "the destination is a directory" ([KDir]; [KParentMissing] for the missing directory:
+    stat, rename and create fail without effect) and the model outcome is that kind's.
+    The property, however, does not forbid an implementation that reads "dir/" like cp(1): "copy into that directory
+    under the source's base name". The judge therefore takes as "the destination" the path it passed if that
+    resolves to a regular file ([dstgiven]) or else <dir>/<base name of the source> ([dstinside]), and accepts, besides
+    the model's failure, every success that satisfies the property under this reading (extra acceptance, outside the
+    model). When the directory is the source's own parent (or the directory holding the symbolic link used as the source
+    path), <dir>/<base> is the source itself: the two are aliases, read like [KSamePath] (a nil MoveFile may leave the
+    source in place, intact).
+    [srcsym]: the source path is a symbolic link to the data file. For MoveFile that is outside the property's quantifier
+    as far as the fate of the source NAME goes (it may be moved as a link): only "error => the source path still reads the
+    original bytes" and "nil => the destination reads them" are judged. *)
+Definition spec_dirlike (op mkind selfparent srcsym ok srcp srco dstgiven dstinside third : N) : bool :=
+  let dst := nz dstgiven || nz dstinside in
+  if nz srcsym && nz op then
+    nz third && (if nz ok then dst else nz srcp && nz srco)
+  else
+    spec_ok (nz op) (if nz selfparent then KSamePath else kind_of_N mkind) false
+      {| o_ok := nz ok; o_src_present := nz srcp; o_src_orig := nz srco; o_dst_orig := dst; o_third_ok := nz third |}.
+
+(** agreement with the model variant of the run: the model's failure for kind [mkind] (6 directory, 7 missing directory),
+    observed on the path as given — or a success, which the model does not have (judged by [spec_dirlike] alone) *)
+Definition dirlike_matches (variant op mkind otherdev nonempty ok srcp srco dstgiven third : N) : bool :=
+  nz ok ||
+  outcome_eqb
+    (model_outcome_v ((variant =? 1) || (variant =? 3)) (2 <=? variant) (nz op) (kind_of_N mkind) (nz otherdev) false (nz nonempty))
+    {| o_ok := nz ok; o_src_present := nz srcp; o_src_orig := nz srco; o_dst_orig := nz dstgiven; o_third_ok := nz third |}.
+
+(** fields of a "D" line after the tag: op mkind otherdev srcmissing(0) nonempty ok srcpresent srcorig dstgiven thirdok
+    dstinside selfparent srcsym *)
+Definition dirlike_ok_for (variant op mkind otherdev srcmissing nonempty ok srcp srco dstgiven third dstinside selfparent srcsym : N) : bool :=
+  negb (nz srcmissing) &&
+  spec_dirlike op mkind selfparent srcsym ok srcp srco dstgiven dstinside third &&
+  dirlike_matches variant op mkind otherdev nonempty ok srcp srco dstgiven third.
+
 (** the outcome the model computes, as numbers (for the driver's messages) *)
 Definition model_fields_for (variant op kind otherdev srcmissing nonempty : N) : list bool :=
   let o := model_outcome_v ((variant =? 1) || (variant =? 3)) (2 <=? variant) (nz op) (kind_of_N kind) (nz otherdev) (nz srcmissing) (nz nonempty) in
